@@ -1,10 +1,52 @@
-(* C15 — exactly the handlers whose declared criteria hold are selected for invocation.
-   Only statements here; proofs in Proofs/Match.v; the model (registries.match/prematch/_matches_*/
-   _deduplicated/get_handlers, the decorator constants of on.py) and the docs-shaped relation
-   [Matches] (docs/filters.rst sentence by sentence) in Model/Match.v.
-   All quantification is unbounded: every declaration, every callback, every body/old/new. *)
+(* C15 — exactly the handlers whose declared criteria hold are invoked; unmatched objects are left untouched.
+   Only statements here; proofs in Proofs/Match.v and Proofs/MatchCycle.v.  Models: Model/Match.v (registries.match/
+   prematch/_matches_*/_deduplicated/get_handlers of the four registries, the decorator constants of on.py, and the
+   docs-shaped relations Holds/Matches written from docs/filters.rst sentence by sentence) and Model/MatchCycle.v (the
+   decision skeleton of processing.process_resource_causes, and the documented cause kinds KindHolds).
+   All quantification is unbounded: every registry, declaration, callback, body/old/new, oracle outcome.
+
+   CLAUSE TABLE (statement of C15 in properties.jsonl)
+   ---------------------------------------------------------------------------------------------------------------------
+   clause                                          | status
+   ---------------------------------------------------------------------------------------------------------------------
+   "for every event the set of handlers invoked    | C15_cycle_invoked_iff_spec (what one processing cycle hands to the
+    is exactly the set whose declared criteria     |   executor / daemon machinery: watching, changing, spawning), built on
+    all hold"                                      |   C15_cycle_invoked_exactly + C15_selected_keys_iff_spec.  Guard old_silent
+                                                   |   = exactly finding F15a (see field/value).  That the executor calls what it
+                                                   |   is handed is C02's model; monitored here ("invoked", "invoked-twice").
+   resource selector                               | full for exact selectors (name/kind/plural/singular/shortcut/category,
+                                                   |   group, version): conjunct M_resource of Matches.  Selector(fn=...) and
+                                                   |   EVERYTHING: not covered (sampled neither; discovery is C19's domain).
+   cause kind                                      | C15_cause_kind (gate of ChangingRegistry.iter_handlers <-> documented kinds,
+                                                   |   incl. resume mixed in / not on deletion unless deleted=True); full.
+   label/annotation criteria                       | full: MetaHolds inside C15_match_iff_spec_partial (no guard concerns them),
+    (value, present, absent, callback)             |   C15_match_total (no exception on well-formed bodies), C15_errors_visible.
+   field/value: current value                      | event/daemon/timer/index: full, C15_non_update_current_only.
+                                                   |   create/resume/delete: C15_non_update_current_only_refuted +
+                                                   |   C15_match_iff_spec_refuted (finding F15a, open) and the strongest true
+                                                   |   C15_non_update_current_only_partial / C15_match_iff_spec_partial.
+   field/value for updates: old or new value       | full: C15_update_field_semantics.
+   old/new transition + "the field actually        | full: C15_update_field_semantics (+ removed/added/unchanged-sibling Example).
+    changed"                                       |
+   when callback                                   | full: WhenHolds inside C15_match_iff_spec_partial.
+   value callbacks get None for an absent field    | full since kopf b981eb5 (F15b fixed): Example C15_callback_absent_gets_none,
+                                                   |   no callback guard anywhere.
+   one function registered twice under the same    | selection: full, C15_dedup, C15_dedup_any_position (any positions), NoDup in
+    id is invoked once                             |   C15_selected_keys_iff_spec / C15_cycle_invoked_iff_spec.  Actual call count:
+                                                   |   executor (C02); monitored end to end ("invoked-twice", "duplicate").
+   objects matched by no handler are left          | C15_stealth_cycle: theorem about the model of process_resource_causes: nothing
+    untouched: no annotations, no finaliser        |   handed to executor/daemons, process_changing_cause not run, no finaliser
+                                                   |   added, patch.fns empty unless a stale own finaliser is present (then only
+                                                   |   its removal).  C15_stealth / C15_stealth_static: the selection level.
+                                                   |   "no annotations" as bytes: the only writers of merge-patch content in that
+                                                   |   routine are invoked watching handlers and process_changing_cause (neither
+                                                   |   runs); the content they would write is C02/C04/C16's model; monitored here:
+                                                   |   "cycle-writes" on the real coroutine, "stealth" through process_resource_event.
+   quantifier: bounded-exhaustive alphabet +       | theorems are unbounded; the alphabets only bound the D-ties (see manifest).
+    random larger ones                             |
+   --------------------------------------------------------------------------------------------------------------------- *)
 From Coq Require Import ZArith List String Bool.
-From KV Require Import Base.Json Base.Dicts Model.Match Proofs.Match.
+From KV Require Import Base.Json Base.Dicts Model.Match Proofs.Match Model.MatchCycle Proofs.MatchCycle.
 Import ListNotations.
 
 (* ---- match() is the documented conjunction of criteria ---------------------------------- *)
@@ -237,3 +279,110 @@ Example C15_errors_visible :
                     [("l1", CPresent)]%string [] None None CNone CNone CNone) bad = Ok false.
 Proof. exact ex_errors. Qed.
 Print Assumptions C15_errors_visible.
+
+(* ==== the cause kinds ========================================================================= *)
+(* the gate of ChangingRegistry.iter_handlers (reason / initial / deleted) is the documented one; other registries have none *)
+Theorem C15_cause_kind : forall h c, cause_gate h c = Ok true <-> KindHolds h c.
+Proof. exact cause_kind_iff. Qed.
+Print Assumptions C15_cause_kind.
+
+Example C15_cause_kind_example :
+  KindHolds ex_resume_decl ex_downtime_update /\
+  ~ KindHolds (decorate DCreate "c" 0 ex_sel [] [] None None CNone CNone CNone) ex_downtime_update /\
+  ~ KindHolds ex_resume_decl ex_deleting_listed /\
+  KindHolds (decorate (DResume true) "r" 0 ex_sel [] [] None None CNone CNone CNone) ex_deleting_listed.
+Proof. exact ex_kind. Qed.
+Print Assumptions C15_cause_kind_example.
+
+(* ==== the selected set in the documented terms ================================================== *)
+(* for every registry and cause (guards: decorator-made declarations, well-formed body, typed registry, essence carries the
+   handler fields, and old_silent = F15a): the selected (function, id) pairs are exactly the declared ones -- some
+   registration not excluded, of the cause's kind, with all documented criteria holding -- each exactly once *)
+Theorem C15_selected_keys_iff_spec : forall excl hs c l,
+  get_handlers excl hs c = Ok l -> guards hs c ->
+  NoDup (map hkey_of l) /\ (forall k, In k (map hkey_of l) <-> Declared excl hs c k).
+Proof. exact selected_keys_iff_spec. Qed.
+Print Assumptions C15_selected_keys_iff_spec.
+
+(* ==== one processing cycle (process_resource_causes) =========================================== *)
+(* what is handed over is what the registries select; the changing handlers only for an object in scope, in a cycle that
+   queued no finaliser addition; nothing else is handed over *)
+Theorem C15_cycle_invoked_exactly : forall g i o, cycle g i = Ok o ->
+  cycle_watching g i = Ok (o_watching o) /\
+  cycle_spawning g i = Ok (o_spawning o) /\
+  (forall l, o_changing o = Some l ->
+     cycle_scope g i = Ok true /\ o_matched o = true /\ ~ In FBlock (o_fns o) /\
+     (if handler_reason (i_reason i)
+      then get_handlers [] (g_changing g) (mk_cause CChanging i) = Ok l else l = [])) /\
+  (o_matched o = true -> cycle_scope g i = Ok true).
+Proof. exact cycle_invoked_exactly. Qed.
+Print Assumptions C15_cycle_invoked_exactly.
+
+Theorem C15_cycle_invoked_iff_spec : forall g i o,
+  cycle g i = Ok o ->
+  (has_handlers (g_watching g) (i_resource i) = true -> guards (g_watching g) (mk_cause CWatching i) ->
+     NoDup (map hkey_of (o_watching o)) /\
+     forall k, In k (map hkey_of (o_watching o)) <-> Declared [] (g_watching g) (mk_cause CWatching i) k) /\
+  (forall l, o_changing o = Some l -> handler_reason (i_reason i) = true -> guards (g_changing g) (mk_cause CChanging i) ->
+     NoDup (map hkey_of l) /\
+     forall k, In k (map hkey_of l) <-> Declared [] (g_changing g) (mk_cause CChanging i) k) /\
+  (forall l, o_spawning o = Some l -> guards (g_spawning g) (mk_cause CSpawning i) ->
+     NoDup (map hkey_of l) /\
+     forall k, In k (map hkey_of l) <-> Declared (i_forever_stopped i) (g_spawning g) (mk_cause CSpawning i) k).
+Proof. exact cycle_invoked_iff_spec. Qed.
+Print Assumptions C15_cycle_invoked_iff_spec.
+
+(* STEALTH for the whole routine: an object matched by no watching handler, no spawning handler, and out of scope of the
+   changing handlers (none for its kind, or ChangingRegistry.prematch False) -- for every event type, every oracle outcome,
+   every carried patch: nothing is handed to the executor or the daemons, process_changing_cause does not run (so neither
+   progress nor the last-handled configuration is written), no finaliser is added; patch.fns stays empty unless the object
+   carries a stale own finaliser, and then it is only removed. *)
+Theorem C15_stealth_cycle : forall g i o,
+  cycle g i = Ok o ->
+  no_watcher_matches g i -> no_spawner_matches g i -> cycle_scope g i = Ok false ->
+  o_watching o = [] /\ (o_spawning o = None \/ o_spawning o = Some []) /\
+  o_changing o = None /\ o_matched o = false /\
+  ~ In FBlock (o_fns o) /\
+  (deletion_blocked (i_finalizer i) (i_body i) = Ok false -> o_fns o = []) /\
+  (deletion_blocked (i_finalizer i) (i_body i) = Ok true -> In FAllow (o_fns o)).
+Proof. exact stealth_cycle. Qed.
+Print Assumptions C15_stealth_cycle.
+
+Theorem C15_cycle_scope_false : forall g i,
+  cycle_scope g i = Ok false <->
+  (has_handlers (g_changing g) (i_resource i) = false \/
+   (has_handlers (g_changing g) (i_resource i) = true /\ registry_prematch (g_changing g) (mk_cause CChanging i) = Ok false)).
+Proof. exact cycle_scope_false. Qed.
+Print Assumptions C15_cycle_scope_false.
+
+(* non-vacuity: a registry with an event handler, a daemon, create/delete/update handlers, all filtered by a label.
+   Unlabelled object: the premises of C15_stealth_cycle hold and nothing happens; a stale own finaliser is removed. *)
+Example C15_stealth_cycle_example :
+  cycle_show (cycle ex_registry (ex_in [] [] false RCreate None)) = Ok ([], Some [], [], None, false) /\
+  cycle_show (cycle ex_registry (ex_in [] [JStr "kopf/fin"] false RCreate None)) = Ok ([], Some [], [FAllow], None, false) /\
+  cycle_show (cycle ex_registry (ex_in [] [JStr "other"; JStr "kopf/fin"] true RDelete None)) = Ok ([], None, [FAllow; FAllow], None, false) /\
+  no_watcher_matches ex_registry (ex_in [] [] false RCreate None) /\
+  no_spawner_matches ex_registry (ex_in [] [] false RCreate None) /\
+  cycle_scope ex_registry (ex_in [] [] false RCreate None) = Ok false.
+Proof. exact ex_stealth_cycle. Qed.
+Print Assumptions C15_stealth_cycle_example.
+
+(* ... and the same registry does react once the label is there: finaliser first, then create / update / delete handlers *)
+Example C15_matched_cycle_example :
+  cycle_show (cycle ex_registry (ex_in [("l1", JStr "v")] [] false RCreate None))
+    = Ok ([10%nat], Some ["dm"], [FBlock], None, false) /\
+  cycle_show (cycle ex_registry (ex_in [("l1", JStr "v")] [JStr "kopf/fin"] false RCreate None))
+    = Ok ([10%nat], Some ["dm"], [], Some [0%nat], true) /\
+  cycle_show (cycle ex_registry (ex_in [("l1", JStr "v")] [JStr "kopf/fin"] false RUpdate (Some (JObj [("spec", JObj [("f", JNum 1)])]))))
+    = Ok ([10%nat], Some ["dm"], [], Some [2%nat], true) /\
+  cycle_show (cycle ex_registry (ex_in [("l1", JStr "v")] [JStr "kopf/fin"] true RDelete (Some (JObj [("spec", JObj [("f", JNum 2)])]))))
+    = Ok ([10%nat], None, [FAllow], Some [1%nat], true).
+Proof. exact ex_matched_cycle. Qed.
+Print Assumptions C15_matched_cycle_example.
+
+(* the guards of C15_selected_keys_iff_spec / C15_cycle_invoked_iff_spec hold for that registry on an update *)
+Example C15_registry_guards_satisfiable :
+  guards (g_changing ex_registry) (mk_cause CChanging (ex_in [("l1", JStr "v")] [JStr "kopf/fin"] false RUpdate
+                                                         (Some (JObj [("spec", JObj [("f", JNum 1)])])))).
+Proof. exact ex_guards_registry. Qed.
+Print Assumptions C15_registry_guards_satisfiable.
